@@ -16,6 +16,7 @@ import (
 	"encoding/hex"
 	"fmt"
 	"math"
+	"sort"
 	"strconv"
 	"strings"
 	"testing/fstest"
@@ -498,9 +499,140 @@ func (c *Ctx) c14Redeclared() {
 	}
 }
 
+// c14Histories: containers are printed as they ARE, whatever happened to them before: maps after inserts, deletes,
+// overwrites and re-inserts (the entries compared as a set unless at most one is left), slices after append and
+// reslicing; printed at top level, nested, through fmt.Sprint, and through the host's Value.String
+func (c *Ctx) c14Histories(n int) {
+	r := c.RNG
+	canon := func(s string) string { // "map[b:2 a:1]" -> entries sorted (keys and values here contain no spaces)
+		i := strings.Index(s, "map[")
+		j := strings.LastIndex(s, "]")
+		if i < 0 || j < i {
+			return s
+		}
+		depth, end := 0, -1
+		for k := i + 3; k < len(s); k++ {
+			if s[k] == '[' {
+				depth++
+			} else if s[k] == ']' {
+				depth--
+				if depth == 0 {
+					end = k
+					break
+				}
+			}
+		}
+		if end < 0 {
+			return s
+		}
+		es := strings.Fields(s[i+4 : end])
+		sort.Strings(es)
+		return s[:i+4] + strings.Join(es, " ") + s[end:]
+	}
+	kinds := []struct {
+		goT  string
+		typ  goat.Type
+		keys []string
+		mk   func(i int) goat.Value
+		nat  func(i int) any
+	}{
+		{"string", goat.TypeString, []string{`"a"`, `"b"`, `""`, `"k3"`}, func(i int) goat.Value { return goat.String([]string{"a", "b", "", "k3"}[i]) }, func(i int) any { return []string{"a", "b", "", "k3"}[i] }},
+		{"int", goat.TypeInt32, []string{"7", "8", "0", "-3"}, func(i int) goat.Value { return goat.Int([]int{7, 8, 0, -3}[i]) }, func(i int) any { return []int{7, 8, 0, -3}[i] }},
+		{"float64", goat.TypeFloat64, []string{"1.5", "2", "0", "-0.25"}, func(i int) goat.Value { return goat.Float64([]float64{1.5, 2, 0, -0.25}[i]) }, func(i int) any { return []float64{1.5, 2, 0, -0.25}[i] }},
+		{"bool", goat.TypeBool, []string{"true", "false", "true", "false"}, func(i int) goat.Value { return goat.Bool(i%2 == 0) }, func(i int) any { return i%2 == 0 }},
+	}
+	for it := 0; it < n; it++ {
+		kk := kinds[r.Intn(len(kinds))]
+		var sb strings.Builder
+		fmt.Fprintf(&sb, "import \"fmt\"\n")
+		native := map[any]int{}
+		var init []goat.Value
+		if r.Bool() {
+			fmt.Fprintf(&sb, "m := map[%s]int{", kk.goT)
+			seen := map[any]bool{}
+			for j := r.Intn(4); j > 0; j-- {
+				k := r.Intn(4)
+				if seen[kk.nat(k)] {
+					continue
+				}
+				seen[kk.nat(k)] = true
+				v := r.Intn(90)
+				fmt.Fprintf(&sb, "%s: %d, ", kk.keys[k], v)
+				native[kk.nat(k)] = v
+				init = append(init, kk.mk(k), goat.Int(v))
+			}
+			sb.WriteString("}\n")
+		} else {
+			fmt.Fprintf(&sb, "m := make(map[%s]int)\n", kk.goT)
+		}
+		host := goat.NewMap(kk.typ, goat.TypeInt32, init)
+		var want, hostGot []string
+		emit := func() {
+			w := fmt.Sprint(native)
+			switch r.Intn(4) {
+			case 0:
+				sb.WriteString("println(m)\n")
+				want = append(want, w)
+			case 1:
+				fmt.Fprintf(&sb, "println([]map[%s]int{m}, \"x\")\n", kk.goT)
+				want = append(want, "["+w+"] x")
+			case 2:
+				sb.WriteString("println(fmt.Sprint(m))\n")
+				want = append(want, w)
+			default:
+				fmt.Fprintf(&sb, "fmt.Println([][]map[%s]int{{m}})\n", kk.goT)
+				want = append(want, "[["+w+"]]")
+			}
+			c.Rep.Oracle["container-history"]++
+			if g := canon(host.String()); g != canon(w) {
+				hostGot = append(hostGot, fmt.Sprintf("host Value.String() = %q want %q", g, canon(w)))
+			}
+		}
+		for j := 3 + r.Intn(12); j > 0; j-- {
+			k := r.Intn(4)
+			switch op := r.Intn(10); {
+			case op < 4:
+				v := r.Intn(90)
+				fmt.Fprintf(&sb, "m[%s] = %d\n", kk.keys[k], v)
+				native[kk.nat(k)] = v
+				host.Set(kk.mk(k), goat.Int(v))
+			case op < 8:
+				fmt.Fprintf(&sb, "delete(m, %s)\n", kk.keys[k])
+				delete(native, kk.nat(k))
+				host.Delete(kk.mk(k))
+			default:
+				emit()
+			}
+		}
+		emit()
+		src := sb.String()
+		out, err := runScript(src)
+		c.Rep.Seen(src, true)
+		var got []string
+		for _, l := range strings.Split(strings.TrimRight(out, "\n"), "\n") {
+			got = append(got, canon(l))
+		}
+		for i := range want {
+			want[i] = canon(want[i])
+		}
+		if err != nil || strings.Join(got, "\n") != strings.Join(want, "\n") || len(hostGot) > 0 {
+			c.Rep.Violate(Violation{Kind: "oracle", Cut: "container-history", Input: src, Impl: fmt.Sprintf("%s err=%v %s", strings.Join(got, "\n"), err, strings.Join(hostGot, "; ")), Oracle: strings.Join(want, "\n")})
+		}
+	}
+	// slices after append / reslice / element stores print their current elements
+	src := "s := []int{1, 2, 3, 4}\nt := s[1:3]\nt = append(t, 9)\nprintln(s, t, s[:0], s[4:], t[:1])\nt = append(t, 10, 11)\nt[0] = 7\nprintln(s, t, len(t))\nvar z []string\nz = append(z, \"\")\nprintln(z, len(z), z[:0])\n"
+	want := "[1 2 3 9] [2 3 9] [] [] [2]\n[1 2 3 9] [7 3 9 10 11] 5\n[] 1 []\n"
+	out, err := runScript(src)
+	c.Rep.Oracle["container-history"]++
+	if err != nil || out != want {
+		c.Rep.Violate(Violation{Kind: "oracle", Cut: "container-history", Input: src, Impl: fmt.Sprintf("%q err=%v", out, err), Oracle: fmt.Sprintf("%q", want)})
+	}
+}
+
 func (c *Ctx) c14Scripts(n int) error {
 	c.c14Separators()
 	c.c14Redeclared()
+	c.c14Histories(n / 2)
 	var progs []c14Prog
 	var lines []string
 	var starts []int
